@@ -30,7 +30,7 @@ func init() {
 	evidenceInfo["C01"] = evInfo{
 		rule: "one evaluation = one project built once through kit.NewJapi (root from disk) or kit.NewJApiFromFile (root in memory, INCLUDEs from disk) on the sim-disk under a seeded fault plan. " + faults +
 			"Projects: generator (valid), light include graphs (ordinary, hostile parameters, static cycles), 29 special configurations (missing/empty/directory root, macro cycles, malformed INCLUDEs, NUL/invalid UTF-8, truncated directives, ...), corpus. " +
-			"Phase 'depth' builds 12 documents with one construct nested or chained 100 000 levels deep (arrays, objects, macro chain, parentheses, regex groups, enum, annotation, or-rule, include chain of 2 000 files ...) under a 64 MB stack limit. Phase 'scaling' first builds 40 project shapes (tags, methods, bodies, type chains and stars, allOf chains, includes, pastes, macro chains, responses, JSON-RPC, macro and include doubling, path parameters, enum values, or-types ...) at size n and 4n, measuring seam operations and bytes allocated, and requires <= 8x the seam operations (deterministic work measure; linear = 4x). " +
+			"Phase 'depth' builds 12 documents with one construct nested or chained 100 000 levels deep (arrays, objects, macro chain, parentheses, regex groups, enum, annotation, or-rule, include chain of 2 000 files ...) under a 64 MB stack limit. Phase 'scaling' first builds 38 project shapes (tags, methods, bodies, type chains and stars, allOf chains, includes, pastes, macro chains, responses, JSON-RPC, macro and include doubling, path parameters, enum values, or-types ...) at size n and 4n, measuring seam operations and bytes allocated, and requires <= 8x the seam operations (deterministic work measure; linear = 4x). " +
 			"Phase 'truncate' builds a document that uses every lexical construct cut at every byte offset x 3 line-ending conventions x 4 trailing bytes. " +
 			"Oracle: outcome is a catalog or a structured error value; no panic; the worker process survives; <= 5000 file accesses; no hang; no deadlock among goroutines the build starts itself; work (seam operations executed) <= 150 per byte served once above 400 000. " +
 			"non-trivial = at least one fault fired or the project is a hostile/special configuration; distinct = distinct (configuration kind, fired-fault multiset, access-log shape, outcome class) tuples",
